@@ -157,7 +157,7 @@ func TestC01Interleaved(t *testing.T) {
 	defer vt.Watch("TestC01Interleaved", 120*time.Second)()
 	rec := vt.For("C01")
 	rec.Rule("owned scheduler (every store call and the settlement are yield points, the schedule is a rapid draw): 2-4 operations of different identities - keep-alives of clients and hosts, peer request, connect, wallet link, one or two withdrawals - start together on memory/badger with and without a minimum balance; oracle at quiescence: ledger total = total before minus the credit settled by successful withdrawals (includes the input class that C10's serialisability check excludes for its known finding); non-trivial = the schedule switches between operations before the last step; distinct by config + ops + schedule")
-	rapid.Check(t, func(rt *rapid.T) {
+	check(t, func(rt *rapid.T) {
 		rapid.SyncTest(rt, func(rt *rapid.T) { c01InterleavedCase(rt, rec) })
 	})
 }
